@@ -296,6 +296,33 @@ func C09(e *core.Env) int {
 			}
 			return o
 		})
+		add("stale", func(dir string) c09Obs {
+			first := obsCLI(dir, dir, canon, nil, "first")
+			if first.exit != 0 {
+				return obsCLI(dir, dir, canon, nil, "regeneration over a stale previous output")
+			}
+			// make every previous output longer and outdated, one of them syntactically broken after the header lines
+			k := 0
+			for fp, b := range first.files {
+				full := filepath.Join(dir, fp)
+				if k%2 == 0 {
+					os.WriteFile(full, []byte(b+strings.Repeat("// stale tail from an older, longer output\nvar _ = 1\n", 30)), 0o644)
+				} else {
+					lines := strings.SplitAfter(b, "\n")
+					os.WriteFile(full, []byte(strings.Join(lines[:2], "")+"\npackage broken {{{ not go\n"+strings.Repeat("x", len(b))), 0o644)
+				}
+				k++
+			}
+			second := obsCLI(dir, dir, canon, nil, "regeneration over a stale previous output")
+			if second.exit == 0 {
+				now := snapshotFiles(dir)
+				second.files = map[string]string{}
+				for fp := range first.files {
+					second.files[fp] = now[fp]
+				}
+			}
+			return second
+		})
 		add("regenerate", func(dir string) c09Obs {
 			first := obsCLI(dir, dir, canon, nil, "first")
 			second := obsCLI(dir, dir, canon, nil, "regeneration over own output")
